@@ -3692,3 +3692,61 @@ mod tests {
     // much every error state as we'll never get the accessTokenResponse at
     // all.
 }
+
+// ---------------------------------------------------------------------------------------
+// C33 verification hook (add-only, compiled only with `--features verif-hooks`).
+// Runs the real private `AuthSession::issue_uat` for an account of the running server with
+// a caller-chosen authentication type and intent, then serialises and signs the token with
+// the same three statements as the `CredState::Success` arm of `validate_creds`.
+#[cfg(feature = "verif-hooks")]
+impl AuthSession {
+    /// `reauth`: `None` = `AuthIntent::InitialAuth { privileged }`;
+    /// `Some((read_write, session_id, session_expiry))` = `AuthIntent::Reauth { .. }` where the
+    /// expiry is a duration since the unix epoch.
+    #[allow(clippy::too_many_arguments)]
+    pub fn verif_c33_issue<'a, TXN: QueryServerTransaction<'a>>(
+        qs: &mut TXN,
+        account_uuid: Uuid,
+        auth_type: AuthType,
+        cred_id: Uuid,
+        privileged: bool,
+        reauth: Option<(bool, Uuid, Option<Duration>)>,
+        time: Duration,
+    ) -> Result<(UserAuthToken, compact_jwt::JwsCompact, Option<DelayedAction>), OperationError>
+    {
+        let entry = qs.internal_search_uuid(account_uuid)?;
+        let (account, account_policy) = Account::try_from_entry_with_policy(entry.as_ref(), qs)?;
+        let key_object = qs.get_domain_key_object_handle()?;
+        let intent = match reauth {
+            None => AuthIntent::InitialAuth { privileged },
+            Some((read_write, session_id, session_expiry)) => AuthIntent::Reauth {
+                read_write,
+                session_id,
+                session_expiry: session_expiry.map(|d| OffsetDateTime::UNIX_EPOCH + d),
+            },
+        };
+        let mut session = AuthSession {
+            account,
+            account_policy,
+            state: AuthSessionState::Success,
+            issue: AuthIssueSession::Token,
+            intent,
+            source: Source::Internal,
+            key_object,
+        };
+        let (async_tx, mut async_rx) = tokio::sync::mpsc::unbounded_channel();
+        let uat = session.issue_uat(
+            auth_type,
+            time,
+            &async_tx,
+            cred_id,
+            SessionExtMetadata::None,
+        )?;
+        let jwt = Jws::into_json(&uat).map_err(|_| OperationError::AU0002JwsSerialisation)?;
+        let token = session
+            .key_object
+            .jws_es256_sign(&jwt, time)
+            .map_err(|_| OperationError::AU0003JwsSignature)?;
+        Ok((uat, token, async_rx.try_recv().ok()))
+    }
+}
